@@ -290,8 +290,10 @@ def run_retry(chk, tmp):
     import jade.utils.run_command as rcmod
     from jade.exceptions import InvalidParameter
     rng = chk.rng
-    kinds = [(0, "", ""), (1, "", "boom"), (2, "", "xx perm yy"), (1, "", "other"), (1, "", "")]
-    errsets = [[], ["perm"], ["nope", "perm"], ["other", ""][:1]]
+    # the listed permanent errors are matched as they are written (case matters: SLURM's own message is capitalised)
+    kinds = [(0, "", ""), (1, "", "boom"), (2, "", "xx perm yy"), (1, "", "other"), (1, "", ""),
+             (1, "", "slurm_load_jobs error: Invalid job id specified"), (1, "", "xx PERM yy")]
+    errsets = [[], ["perm"], ["nope", "perm"], ["other", ""][:1], ["Invalid job id specified"], ["Perm", "invalid job id specified"]]
     maxlen = 4 if chk.tier == "quick" else 5
     seqs = []
     for L in range(1, maxlen + 1):
